@@ -6,6 +6,9 @@ use crate::{
     fingerprint, CheckerBuilder, CheckerVisitor, ControlFlow, Fingerprint, Model, Property,
 };
 use dashmap::mapref::entry::Entry;
+#[cfg(getong_stateright_verif)]
+use crate::verif::dash::DashMap;
+#[cfg(not(getong_stateright_verif))]
 use dashmap::DashMap;
 use nohash_hasher::NoHashHasher;
 use std::collections::{HashMap, VecDeque};
